@@ -2933,7 +2933,8 @@ where
                                 }
                                 self.publish_recv.insert(packet_id);
 
-                                if !self.qos2_publish_handled.insert(packet_id) {
+                                // Only marked as handled once the packet passed validation below.
+                                if self.qos2_publish_handled.contains(&packet_id) {
                                     already_handled = true;
                                 }
                                 if self.status == ConnectionStatus::Connected
@@ -3005,6 +3006,12 @@ where
                                 if let Some(ref mut topic_alias_recv) = self.topic_alias_recv {
                                     topic_alias_recv.insert_or_update(packet.topic_name(), ta);
                                 }
+                            }
+                        }
+
+                        if packet.qos() == Qos::ExactlyOnce {
+                            if let Some(packet_id) = packet.packet_id() {
+                                self.qos2_publish_handled.insert(packet_id);
                             }
                         }
 
